@@ -208,6 +208,7 @@ def requests(world):
     if held:
         variants.append((cards_str(some(held, 1)), 'held1'))
         variants.append((cards_str(held), 'held_all'))
+        variants.append((cards_str(held[:1] * 2), 'held_twice'))        # one held card named twice: not a set of his cards
     if one:
         variants.append((cards_str(one), 'not_held'))
     variants.append((bad, 'malformed'))
